@@ -803,3 +803,13 @@ for _i, _nm in enumerate(_SHAPES):
                  "remove_fetch_from_peer", "get_elements", "config_peer", "handle_authentication", "handle_change_password", "handle_routing_response", "create_error_response*"],
       symbolic="one number inside the hostile member", assumes=["set-up (O add 's', B fetch-all) succeeds"],
       bounds="one message of shape '%s' by A; 3 peers, 1 element, 1 subscription" % _nm, **_scn_shape)
+
+# get with a path rule (C16: "a fetch or get with a path rule selects exactly ...")
+_GET_RULES = [(0, "equals", "a", ["matched"]), (0, "equals", "A", ["not_matched"]), (1, "equals_ci", "A", ["matched"]), (3, "unknown_name", "a", ["refused"]),
+              (4, "wrong_type", "a", ["refused"]), (5, "repeated_option", "A", []), (6, "too_many", "a", ["refused"]), (7, "contains_all_of", "a", ["matched"]),
+              (8, "equals_not_and_contains", "a", ["not_matched"]), (15, "ends_with_ci", "A", ["matched"]), (15, "ends_with_ci", "z", ["not_matched"])]
+for _r, _nm, _op, _rch in _GET_RULES:
+    O(id="C16.get_rule_%s_%s" % (_nm, _op), props=["C16", "C06", "C02"], entry="harness_rule", reach=_rch, defines=["RULE=%d" % _r, "OPCHAR='%s'" % _op, "VIA_GET=1"],
+      functions=["get_elements", "get_elements_in_peer", "create_fetch", "add_matchers", "create_matcher", "state_matches", "free_fetch"],
+      symbolic="state value (operand byte '%s' fixed per obligation)" % _op, assumes=["set-up add of 'ab' succeeds"],
+      bounds="skeleton: A add 'ab'; B get with rule shape '%s' and operand byte '%s'; struct-hack arrays: --no-bounds-check (object bounds still checked)" % (_nm, _op), **_scn_rule)
